@@ -460,6 +460,22 @@ static void case_gen(Tape &t, Ctx &cx)
         VP_CHECK(cx, memcmp(&ml.alpha, &al, sizeof(R)) == 0, "lpf_gen:member_differs", "member gen(%.17g, %.17g) sets alpha %.17g, a_lpf_gen gives %.17g", fc, ts, ml.alpha, al);
         VP_CHECK(cx, memcmp(&mh.alpha, &ah, sizeof(R)) == 0, "hpf_gen:member_differs", "member gen(%.17g, %.17g) sets alpha %.17g, a_hpf_gen gives %.17g", fc, ts, mh.alpha, ah);
     }
+    {
+        // the macro forms (also behind the static initialisers), with expressions as arguments the way callers write them:
+        // fc = fa + fb and ts = ta - tb, both exact
+        R fa = fc / 2, fb = fc - fa, ta = ts * 2, tb = ts;
+        if (fa + fb == fc && std::isfinite(ta) && ta - tb == ts)
+        {
+            R ml = A_LPF_GEN(fa + fb, ta - tb), mh = A_HPF_GEN(fa + fb, ta - tb);
+            a_lpf il = A_LPF_2(fa + fb, ta - tb);
+            a_hpf ih = A_HPF_2(fa + fb, ta - tb);
+            a_lpf i1 = A_LPF_1(fa + fb);
+            a_hpf h1 = A_HPF_1(fa + fb);
+            VP_CHECK(cx, memcmp(&ml, &al, sizeof(R)) == 0 && memcmp(&il.alpha, &al, sizeof(R)) == 0 && il.output == 0, "lpf_gen:macro_differs", "A_LPF_GEN / A_LPF_2 with the arguments (fa + fb, ta - tb) give %.17g / %.17g, a_lpf_gen(%.17g, %.17g) gives %.17g", ml, il.alpha, fc, ts, al);
+            VP_CHECK(cx, memcmp(&mh, &ah, sizeof(R)) == 0 && memcmp(&ih.alpha, &ah, sizeof(R)) == 0 && ih.output == 0 && ih.input == 0, "hpf_gen:macro_differs", "A_HPF_GEN / A_HPF_2 with the arguments (fa + fb, ta - tb) give %.17g / %.17g, a_hpf_gen(%.17g, %.17g) gives %.17g", mh, ih.alpha, fc, ts, ah);
+            VP_CHECK(cx, i1.alpha == fc && h1.alpha == fc && i1.output == 0 && h1.output == 0 && h1.input == 0, "lpf_gen:macro_differs", "A_LPF_1 / A_HPF_1 with the argument (fa + fb) store %.17g / %.17g, not %.17g", i1.alpha, h1.alpha, fc);
+        }
+    }
     cx.log("gen fc=%.17g ts=%.17g product=%.6Lg -> lpf %.17g hpf %.17g\n", fc, ts, prod, al, ah);
     LD tau = 6.283185307179586476925286766559L;
     LD rl = 1 / (1 + 1 / (tau * prod)), rh = 1 / (tau * prod + 1);
